@@ -349,6 +349,8 @@ struct Dumper
                                 out << ",\"salign\":" << a->value();
                     }
                 }
+                if (auto* inv = dyn_cast<InvokeInst>(&I))
+                    out << ",\"normal\":" << ids[inv->getNormalDest()] << ",\"unwind\":" << ids[inv->getUnwindDest()];
                 if (auto* phi = dyn_cast<PHINode>(&I))
                 {
                     out << ",\"incoming\":[";
